@@ -4,6 +4,8 @@
     phasegen/locus.py      LocusConfig.__init__ (ordered guards -> verdict; stored attributes), _get_initial_states, __eq__
     phasegen/lineage.py    LineageConfig.__init__ (the three container forms), _get_initial_states, __eq__ (through lineage_dict)
     phasegen/state_space.py  StateSpace.alpha (product of the two indicator vectors, normalised)
+    phasegen/demography.py   Epoch.__init__ (copies, sorted names, zero-filled migration rates), Epoch.__eq__ / __hash__ (the key
+                             equality of the state-space cache), Epoch.tau
 
 Reading of the source (trusted base of this translator):
   * `s.lineages` / `s.linked` have shape (k, L, D, B): state, locus, deme, block; `_get_initial_states` treats axis 0 (the state)
@@ -19,6 +21,9 @@ Reading of the source (trusted base of this translator):
   * `isinstance(n, dict)` / `isinstance(n, Iterable)` / else select the constructor of the argument's sum type
     (NDict / NIter / NScalar); `{k: int(v) for k, v in n.items()}`, `{f"pop_{i}": int(n) for i, n in enumerate(n)}` and
     `dict(pop_0=int(n))` are association lists in insertion order; `f"pop_{i}"` is pop_name i;
+  * an Epoch is read by VALUE: `pop_sizes.copy()` / `migration_rates.copy()` (compared textually) make the epoch own its dictionaries;
+    dictionaries are association lists in insertion order, `tuple(d.items()) == tuple(d'.items())` is equality of these lists (same
+    keys in the same order, values compared as numbers), `float == float` is equality of rationals;
   * in StateSpace.alpha the two method calls are the per-state functions applied to every state of `self.states`, `a * b` of two
     integer vectors is the elementwise product, `alpha / alpha.sum()` divides every entry (injected into the field) by the sum.
 """
@@ -338,6 +343,56 @@ def lineage_config(tree):
     return out
 
 
+
+# ---------------------------------------------------------------------------------------------- Epoch
+def epoch_class(tree):
+    cls = get_class(tree, 'Epoch')
+    f = get_method(cls, '__init__')
+    names = [a.arg for a in f.args.args]
+    dfl = [ast.unparse(d) for d in f.args.defaults]
+    if names != ['self', 'start_time', 'end_time', 'pop_sizes', 'migration_rates'] or dfl != ['0', 'np.inf', 'None', 'None']:
+        fail(f, 'Epoch.__init__: unexpected signature')
+    got = [ast.unparse(s) for s in body_of(f)]
+    want = ["if pop_sizes is None:\n    pop_sizes = {'pop_0': 1}", 'if migration_rates is None:\n    migration_rates = {}',
+            'self.start_time: float = start_time', 'self.end_time: float = end_time', 'self.pop_sizes: Dict[str, float] = pop_sizes.copy()',
+            'self.pop_names: List[str] = sorted(list(self.pop_sizes.keys()))', 'self.n_pops: int = len(self.pop_names)',
+            'migration_rates = migration_rates.copy()',
+            'for p in self.pop_sizes:\n    for q in self.pop_sizes:\n        if p != q and (p, q) not in migration_rates:\n            migration_rates[p, q] = 0',
+            'self.migration_rates: Dict[Tuple[str, str], float] = migration_rates']
+    if got != want:
+        raise Unsupported('Epoch.__init__: unexpected body:\n' + '\n'.join(f'  {a!r}' for a in got))
+    out = ['(* Epoch.__init__ (compared with the expected text): the epoch OWNS copies of its dictionaries; names sorted; every ordered pair of\n'
+           '   distinct populations without a migration rate gets the rate 0, appended in the order of the loops *)\n'
+           'Definition Epoch_init (start_time : Q) (end_time : option Q) (pop_sizes : option (list (string * Q)))\n'
+           '           (migration_rates : option (list (string * string * Q))) : epoch_val :=\n'
+           '    let pop_sizes := match pop_sizes with None => [("pop_0"%string, 1%Q)] | Some d => d end in\n'
+           '    let migration_rates := match migration_rates with None => [] | Some d => d end in\n'
+           '    let ks := map fst pop_sizes in\n'
+           '    let mig := fold_left (fun m p => fold_left (fun m q =>\n'
+           '                 if negb (String.eqb p q) && negb (mig_in p q m) then m ++ [((p, q), 0%Q)] else m) ks m) ks migration_rates in\n'
+           '    mkEpochVal start_time end_time pop_sizes (sort_strings ks) (length ks) mig.\n']
+    e = get_method(cls, '__eq__')
+    be = body_of(e)
+    ok = len(be) == 1 and isinstance(be[0], ast.Return) and isinstance(be[0].value, ast.BoolOp) and isinstance(be[0].value.op, ast.And)
+    if ok:
+        vals = [ast.unparse(v) for v in be[0].value.values]
+        ok = vals == ['isinstance(other, Epoch)', 'tuple(self.pop_sizes.items()) == tuple(other.pop_sizes.items())',
+                      'tuple(self.migration_rates.items()) == tuple(other.migration_rates.items())']
+    if not ok:
+        fail(e, 'Epoch.__eq__: expected isinstance(other, Epoch) and equality of the items of pop_sizes and of migration_rates')
+    h = get_method(cls, '__hash__')
+    if [ast.unparse(x) for x in body_of(h)] != ['return hash((tuple(self.pop_sizes.items()), tuple(self.migration_rates.items())))']:
+        fail(h, 'Epoch.__hash__: must hash exactly what __eq__ compares')
+    t = get_method(cls, 'tau')
+    if [ast.unparse(x) for x in body_of(t)] != ['return self.end_time - self.start_time']:
+        fail(t, 'Epoch.tau: unexpected body')
+    out.append('(* Epoch.__eq__ (and __hash__, which hashes exactly the two tuples compared): start and end time take no part *)\n'
+               'Definition Epoch_eq (a b : epoch_val) : bool :=\n'
+               '    list_eqb (fun x y => String.eqb (fst x) (fst y) && Qeq_bool (snd x) (snd y)) (ev_sizes a) (ev_sizes b) &&\n'
+               '    list_eqb (fun x y => String.eqb (fst (fst x)) (fst (fst y)) && String.eqb (snd (fst x)) (snd (fst y)) && Qeq_bool (snd x) (snd y))\n'
+               '             (ev_mig a) (ev_mig b).\n')
+    return out
+
 # ---------------------------------------------------------------------------------------------- StateSpace.alpha
 def alpha(tree):
     cls = get_class(tree, 'StateSpace')
@@ -360,7 +415,7 @@ def alpha(tree):
 
 HEADER = '''(* GENERATED FILE - DO NOT EDIT.  Regenerated on every run of the checks that depend on the configuration classes by
    /verif/translate/configs2coq.py (Python `ast`, fail-closed) from phasegen/locus.py, phasegen/lineage.py and
-   phasegen/state_space.py (StateSpace.alpha).
+   phasegen/state_space.py (StateSpace.alpha) and phasegen/demography.py (class Epoch).
    The equivalence with the hand-written model (outcome of model/Validate.v; matches_config / matches_linkage / alpha_vec of
    model/StateSpace.v) is proved in proofs/GenConfigsEquiv.v.
    Reading of the source: see the docstring of the translator. *)
@@ -380,7 +435,7 @@ def translate(src_dir_or_text):
     if not os.path.isdir(d):
         d = os.path.dirname(d)
     trees = {}
-    for fn in ('locus.py', 'lineage.py', 'state_space.py'):
+    for fn in ('locus.py', 'lineage.py', 'state_space.py', 'demography.py'):
         trees[fn] = ast.parse(open(os.path.join(d, fn)).read())
     for fn, need in (('locus.py', {'np': 'numpy'}), ('lineage.py', {'np': 'numpy'})):
         imports = {}
@@ -391,9 +446,9 @@ def translate(src_dir_or_text):
         for k, v in need.items():
             if imports.get(k) != v:
                 raise Unsupported(f'{fn}: name {k} is not bound to module {v}')
-    out = locus_config(trees['locus.py']) + lineage_config(trees['lineage.py']) + alpha(trees['state_space.py'])
+    out = locus_config(trees['locus.py']) + lineage_config(trees['lineage.py']) + alpha(trees['state_space.py']) + epoch_class(trees['demography.py'])
     return HEADER + '\n'.join(out), ['LocusConfig.__init__', 'LocusConfig._get_initial_states', 'LocusConfig.__eq__', 'LineageConfig.__init__',
-                                     'LineageConfig._get_initial_states', 'LineageConfig.__eq__', 'StateSpace.alpha']
+                                     'LineageConfig._get_initial_states', 'LineageConfig.__eq__', 'StateSpace.alpha', 'Epoch.__init__', 'Epoch.__eq__', 'Epoch.__hash__']
 
 
 def main():
